@@ -58,10 +58,17 @@ def encode_record(rid, notes, cols):
     rec = {"t": "encode", "id": rid, "notes": notes, "cols": cols, "st": "ok", "text": [], "back": [],
            "columns": 0, "text2": []}
     try:
-        nd = NoteData.from_notes((nc.build_note(d) for d in notes), cols)
+        mode = nc.text_mode(repr(notes))
+        built = [nc.build_note(d) for d in notes]
+        # the stream is handed over as a generator, an iterator, a list or a tuple
+        src = [lambda: (x for x in built), lambda: iter(built), lambda: built, lambda: tuple(built)][(mode // 7) % 4]()
+        nd = NoteData.from_notes(src, cols)
         text = str(nd)
         rec["text"] = cps(text)
-        back = list(nd)
+        back, consistent = nc.read_notes(nd, mode)
+        if not consistent:
+            rec["st"] = "InconsistentReads"
+            return rec
         rec["back"] = [nc.proj_note(x) for x in back]
         rec["columns"] = nd.columns
         rec["text2"] = cps(str(NoteData.from_notes(back, cols)))
